@@ -75,6 +75,8 @@ func tcLockset(c *an.Check, a *tcAnchors) {
 }
 
 func c04(c *an.Check) {
+	// "authenticated remote peer": the identity every link reports comes out of the certificate-chain check
+	certChainGates(c)
 	p := c.P
 	a := tcResolve(c)
 	if a == nil {
@@ -312,6 +314,44 @@ func c06(c *an.Check) {
 		return
 	}
 	linkResolverIdentity(c)
+	// link identifiers are a pure function of (addresses, peer): the shared checksum helper resets its hasher on every call
+	// — "same uuid ⇒ replacement" (the only way a usurped link leaves the tables) relies on it
+	if crc := p.Func("util/scrc", "", "Crc64"); crc == nil {
+		c.Undecided("MUSTCALL", "scrc.Crc64 is deterministic", nil, "unresolved anchor")
+	} else {
+		reset, sum := false, false
+		for _, b := range crc.Blocks {
+			for _, ins := range b.Instrs {
+				var cc *ssa.CallCommon
+				switch x := ins.(type) {
+				case *ssa.Call:
+					cc = x.Common()
+				case *ssa.Defer:
+					cc = x.Common()
+				}
+				if cc == nil || !cc.IsInvoke() {
+					continue
+				}
+				switch cc.Method.Name() {
+				case "Reset":
+					reset = true
+				case "Sum64":
+					sum = true
+				}
+			}
+		}
+		fresh := false
+		for _, b := range crc.Blocks {
+			for _, ins := range b.Instrs {
+				if call, ok := ins.(*ssa.Call); ok {
+					if f := call.Call.StaticCallee(); f != nil && f.Pkg != nil && f.Pkg.Pkg.Path() == "hash/crc64" && (f.Name() == "New" || f.Name() == "Checksum") {
+						fresh = true
+					}
+				}
+			}
+		}
+		c.Require((reset && sum) || fresh, "MUSTCALL", "scrc.Crc64 (link / transport uuid) is a pure function of its inputs", crc, "", 1, "shared hasher Reset on every call (or a fresh hasher / crc64.Checksum)", "the shared crc64 hasher is not reset between calls: identical inputs give different uuids, so a replacement link no longer collides with the link it replaces and the old one stays in the tables")
+	}
 	// every critical section that changes the link tables wakes the resolvers before it ends: a lost link is otherwise
 	// still reported (and a new one not yet) until some unrelated event
 	for _, w := range []struct {
@@ -574,6 +614,9 @@ func c06(c *an.Check) {
 }
 
 func c05(c *an.Check) {
+	equivCheck(c, func(f *ssa.Function) bool { return strings.Contains(an.FuncName(f), "tptaddr.dialTptAddr") })
+	// "authenticated remote peer": the identity every link reports comes out of the certificate-chain check
+	certChainGates(c)
 	p := c.P
 	const qPkg = "transport/common/quic"
 	dp := p.Func(qPkg, "Transport", "DialPeer")
